@@ -16,6 +16,7 @@ import (
 	"path/filepath"
 	"sort"
 	"strings"
+	"unicode/utf8"
 
 	"k8s.io/apiserver/pkg/authentication/user"
 	"k8s.io/klog"
@@ -190,8 +191,8 @@ func canonCalls(ds []Deny) string {
 
 var gw *gateway
 
-// classes recorded as `finding:` in known_findings.txt (one shrunk witness per run would be reported): none at present
-var knownClass = map[string]bool{}
+// classes recorded as `finding:` in known_findings.txt: one shrunk witness per run is reported
+var knownClass = map[string]bool{"c02.record-not-utf8": true}
 
 type verdict struct {
 	ok      bool
@@ -287,6 +288,20 @@ func eval(c *rig.Ctx, cs Case) (verdict, Observed, modelOut) {
 			what: fmt.Sprintf("upstream received %s, model predicts %s; %s", readableLines(ow.Upstream[0]), readableLines(m.Recv), cs.readable())}, obs, m
 	}
 	implCalls := callsOf(obs)
+	// every review must be about the authenticated requestor (compared where JSON carries the strings) and the verb impersonate
+	if cs.User != nil {
+		want := cs.User.info()
+		carried := utf8.ValidString(want.Name)
+		for _, g := range want.Groups {
+			carried = carried && utf8.ValidString(g)
+		}
+		for _, sar := range obs.SARs {
+			if sar.Verb != "impersonate" || (carried && (sar.User != want.Name || strings.Join(sar.Groups, "\x00") != strings.Join(want.Groups, "\x00"))) {
+				return verdict{kind: "diff", class: "c02.sar-requestor", impl: obs, model: m,
+					what: fmt.Sprintf("the cluster was asked verb %q about requestor %q %q; %s", sar.Verb, sar.User, sar.Groups, cs.readable())}, obs, m
+			}
+		}
+	}
 	switch m.Outcome {
 	case "forwarded", "transportRefused", "valueRefused", "upstreamRefused":
 		if canonCalls(implCalls) != canonCalls(m.Calls) {
@@ -294,12 +309,13 @@ func eval(c *rig.Ctx, cs Case) (verdict, Observed, modelOut) {
 				what: fmt.Sprintf("authorizer was asked %s, model derives %s; %s", canonCalls(implCalls), canonCalls(m.Calls), cs.readable())}, obs, m
 		}
 	case "forbidden":
-		// the loop stops at the first refusal: the calls made are among the derived ones and the last one was refused
+		// the loop stops at the first refusal: the reviews sent are among the derived ones and the last one was refused; no review
+		// at all when it cannot be sent for this requestor
 		all := map[string]int{}
 		for _, d := range m.Calls {
 			all[canonCalls([]Deny{d})]++
 		}
-		okc := len(implCalls) > 0
+		okc := (len(implCalls) > 0) == (len(m.Calls) > 0)
 		for _, d := range implCalls {
 			k := canonCalls([]Deny{d})
 			if all[k] == 0 {
@@ -307,7 +323,7 @@ func eval(c *rig.Ctx, cs Case) (verdict, Observed, modelOut) {
 			}
 			all[k]--
 		}
-		if okc {
+		if okc && len(obs.Calls) > 0 {
 			last := obs.Calls[len(obs.Calls)-1]
 			if policy.decide(last) == "allow" {
 				okc = false
@@ -315,7 +331,7 @@ func eval(c *rig.Ctx, cs Case) (verdict, Observed, modelOut) {
 		}
 		if !okc {
 			return verdict{kind: "diff", class: "c02.authorizer-calls", impl: obs, model: m,
-				what: fmt.Sprintf("403 after asking %s, model derives %s; %s", canonCalls(implCalls), canonCalls(m.Calls), cs.readable())}, obs, m
+				what: fmt.Sprintf("403 after asking the cluster %s, model derives %s; %s", canonCalls(implCalls), canonCalls(m.Calls), cs.readable())}, obs, m
 		}
 	default:
 		if len(implCalls) != 0 {
@@ -477,9 +493,13 @@ func main() {
 		}
 		defer gw.close()
 		if c.Replay != "" {
-			var probe struct{ Key *string }
+			var probe struct{ Key, S *string }
 			if err := c.LoadReplay(&probe); err == nil && probe.Key != nil {
 				sweepKey(c, rig.UnHex(*probe.Key))
+				return
+			}
+			if probe.S != nil {
+				jsonSweepOne(c, rig.UnHex(*probe.S))
 				return
 			}
 			var cs Case
@@ -502,6 +522,7 @@ func main() {
 			runCase(c, *env.Case, "corpus")
 		}
 		escapeSweep(c)
+		jsonSweep(c)
 		n := c.Budget(4000, 80000)
 		for i := 0; i < n && nJudge < 3; i++ {
 			runCase(c, genCase(c, i), "gen")
